@@ -41,8 +41,11 @@ type C16Case struct {
 	// Missing: "files" | "symlinks" | "dirs": the build has MissingN extra entries of that kind and NONE of them is
 	// on disk — more whole-entry wounds than the wound channel holds, sent by the goroutine that blocks when the
 	// consumer has stopped reading
-	Missing     string `json:"missing,omitempty"`
-	MissingN    int    `json:"missing_n,omitempty"`
+	Missing  string `json:"missing,omitempty"`
+	MissingN int    `json:"missing_n,omitempty"`
+	// GrownMiB > 0: one small healthy signed file has GrownMiB MiB appended on disk (a log that kept growing): far
+	// more wounds for that file than it has signed blocks
+	GrownMiB    int    `json:"grown_mib,omitempty"`
 	WorkerFails string `json:"worker_fails,omitempty"`
 	DropHashes  int    `json:"drop_hashes,omitempty"`
 }
@@ -134,6 +137,10 @@ func c16One(env *Env, c *C16Case) {
 				}
 			}
 		}
+	}
+	if c.GrownMiB > 0 {
+		f := dmg.Find(files[int(c.Seed%uint64(len(files)))].Path)
+		f.Data = append(f.Data, r.Bytes(c.GrownMiB<<20+int(c.Seed%70000))...)
 	}
 	if c.MissingN > 0 {
 		var keep []wvlib.BEntry
@@ -331,6 +338,10 @@ func runC16(env *Env) {
 		for _, cons := range []string{"failfast", "badwoundsfile", "woundsfile"} {
 			cases = append(cases, &C16Case{Seed: rng.Next(), Files: 3, Wounded: 0, Consumer: cons, CancelAt: -2, Missing: kind, MissingN: 1024 + 2 + rng.Intn(300)})
 		}
+	}
+	// a file that has grown by many MiB since it was signed
+	for i, cons := range []string{"failfast", "woundsfile", "printer"} {
+		cases = append(cases, &C16Case{Seed: rng.Next(), Files: 4, Wounded: 0, Consumer: cons, CancelAt: -2, GrownMiB: []int{16, 20, 9}[i]})
 	}
 	// the worker itself fails: its error has to reach the caller
 	for i := 0; i < 6; i++ {
